@@ -118,6 +118,37 @@ def run_case(case):
                         "on)" % (type(inn).__name__, str(inn)[:200]), wit, mech=mech)
     if not (np.array_equal(x, x0) and np.array_equal(y, y0) and np.array_equal(coord, c0)):
         return violated(sig, "an argument was modified", wit, mech="mutated")
+    if case["via"] == "func" and sum(case["rs"]) % 3 == 0:
+        # history with rejected calls in between: an unknown kernel name, coordinates with too
+        # many columns and a grid operand of the wrong rank - each with *other* width / param
+        # values - then the first call again, which must give the first result
+        wbad = (np.asarray(width, float) + 1.7).tolist() if np.ndim(width) else width + 1.7
+        pbad = (np.asarray(param, float) * 0.5).tolist() if np.ndim(param) else param * 0.5
+        for bad in (
+                lambda: sp.interpolate(x, coord, kernel="linear", width=wbad, param=pbad),
+                lambda: sp.gridding(y, coord, batch + grid, kernel="linear", width=wbad,
+                                    param=pbad),
+                lambda: sp.interpolate(x, np.concatenate([coord] * 3, axis=-1)[..., :4],
+                                       kernel=kernel, width=wbad, param=pbad),
+                lambda: sp.gridding(y[..., :-1] if y.shape[-1] > 1 else y[..., None], coord,
+                                    batch + grid, kernel=kernel, width=wbad, param=pbad)):
+            try:
+                bad()
+            except Exception:
+                pass
+        try:
+            again_i = sp.interpolate(x, coord, kernel=kernel, width=width, param=param)
+            again_g = sp.gridding(y, coord, batch + grid, kernel=kernel, width=width,
+                                  param=param)
+        except Exception as e:
+            return violated(sig, "a valid call raised %s after rejected calls: %s" % (
+                type(e).__name__, str(e)[:150]), wit, mech="history-after-failure")
+        if not (np.array_equal(again_i, got_i, equal_nan=True)
+                and np.array_equal(again_g, got_g, equal_nan=True)):
+            return violated(sig, "the same call gives another result after rejected calls "
+                            "(unknown kernel / wrong operand shapes with other width and "
+                            "param) in between", wit, mech="history-after-failure")
+        sig += "|after-rejected"
     if not (np.array_equal(np.asarray(width, float), w0)
             and np.array_equal(np.asarray(param, float), p0)):
         return violated(sig, "the width / param argument was modified by the call (width %s -> "
